@@ -229,3 +229,49 @@ def collinear_quadratic_length_is_finite(c, axis):
     sc = max(1.0, max(abs(z) for z in P))
     c.ensures('finite-and-non-negative', math.isfinite(L) and L >= 0)
     c.ensures('close-to-the-chord-sum-of-a-fine-subdivision', math.isfinite(L) and abs(L - ch) <= 5e-3 * max(ch, 1e-9) + 1e-9 * sc)
+
+
+@contract('C06', 'path.Arc.length', params=[{'scipy': s, 'whole': w, '_no_bounded': True} for s in (True, False) for w in (False, True)], budget=120)
+def arc_length_structure(c, scipy, whole):
+    """Arc.length for an Arc in any stored parameter state, both configurations: one quadrature
+    of the speed |d/dt point| over [t0,t1] (scipy), or the chord recursion from point(t0) to
+    point(t1) (segment_length contract: >= chord >= 0); the whole-arc call goes through the
+    hash-keyed cache and computes the same thing"""
+    from contracts.c04 import arc_state
+    arc, p = arc_state(c)
+    c.ip.module('path').vars['_quad_available'] = scipy
+    if whole:
+        t0, t1 = 0, 1
+    else:
+        t0, t1 = c.real('t0'), c.real('t1')
+        c.assume(ops.And(ops.le(0, t0), ops.lt(t0, t1), ops.le(t1, 1), ops.Not(ops.And(ops.eq(t0, 0), ops.eq(t1, 1)))))
+    calls = []
+    _segment_length_contract(c, calls)
+    qcalls = []
+
+    def quad_model(ip, a, k):
+        q = ip.ctx.fresh_real('quad')
+        ip.ctx.assume(q.t >= 0)
+        qcalls.append((a, k, q))
+        return (q, 0)
+    from pyvc import interp as I
+    c.ip.quad_model = I.Builtin('quad(model)', quad_model)
+    L = c.callm(arc, 'length', t0, t1) if not whole else c.callm(arc, 'length')
+    c.ensures('non-negative', ops.le(0, L))
+    z0, z1 = c.callm(arc, 'point', t0), c.callm(arc, 'point', t1)
+    if scipy:
+        c.ensures('one-quadrature-and-no-recursion', len(qcalls) == 1 and len(calls) == 0)
+        a, k, q = qcalls[0]
+        c.ensures('quadrature-over-[t0,t1]', ops.And(ops.eq(a[1], t0), ops.eq(a[2], t1)))
+        tau = c.real('tau')
+        v = c.call(a[0], tau)
+        d = c.ddt(c.callm(arc, 'point', tau), tau)
+        c.ensures('integrand-is-the-speed', ops.And(ops.le(0, v), ops.eq(v * v, ops.norm2(d))))
+        c.ensures('returns-the-quadrature-value', ops.eq(L, q))
+    else:
+        c.ensures('no-quadrature-without-scipy', len(qcalls) == 0)
+        c.ensures('one-recursion', len(calls) == 1)
+        (args, kw, r) = calls[0]
+        c.ensures('fallback-over-[t0,t1]-from-point(t0)-to-point(t1)',
+                  args[0] is arc and ops.And(ops.eq(args[1], t0), ops.eq(args[2], t1), ops.eq(args[3], z0), ops.eq(args[4], z1), ops.eq(args[7], 0)))
+        c.ensures('at-least-the-chord', ops.le(ops.absv(z1 - z0), L))
